@@ -18,6 +18,11 @@ HARNESSES = {
     'spi_interior.rs': ('src/algorithms/shortest_path/shortest_path_info.rs', [
         ('c08_interior_filter_bounded', 'C08.interior.filter_bounded', 'bounded: T=u8, <=2 paths x <=4 nodes, unwind 6'),
     ]),
+    'float_facts.rs': ('src/lib.rs', [
+        ('a1_float_identities', 'C04.float.a1_identities_hold_on_machine_f64', 'complete'),
+        ('a1_float_identities', 'C05.float.a1_identities_hold_on_machine_f64', 'complete'),
+        ('a1_float_identities', 'C06.float.a1_identities_hold_on_machine_f64', 'complete'),
+    ]),
     'centrality_fringe.rs': ('src/algorithms/centrality/fringe_node.rs', [
         ('c05_fringe_total_preorder', 'C05.fringe.total_preorder', 'complete'),
         ('c05_fringe_max_is_min_distance', 'C05.fringe.max_is_min_distance', 'complete'),
